@@ -142,9 +142,9 @@ def direct_models(tier):
 
 def specs(tier):
     if tier == "quick":
-        return [(0.0, 1.0, 3), (1.0, 0.5, 3), (2.5, 0.25, 3), (0.0, 0.1, 4)]
+        return [(0.0, 1.0, 3), (1.0, 0.5, 3), (2.5, 0.25, 3), (0.0, 0.1, 4), (2.5, 1.0, 3), (0.25, 0.5, 3)]
     return [(0.0, 1.0, 6), (1.0, 1.0, 4), (1.0, 0.5, 6), (2.5, 0.25, 8), (0.0, 0.2, 6), (0.0, 0.1, 8), (1.0, 0.05, 5),
-            (2.5, 0.5, 4), (0.0, 0.25, 8)]
+            (2.5, 0.5, 4), (0.0, 0.25, 8), (2.5, 1.0, 4), (0.25, 0.5, 4), (0.5, 1.0, 4), (1.25, 0.1, 5)]
 
 
 def spec_class(spec):
